@@ -244,7 +244,7 @@ func checkC27(c *Ctx, r *Report) {
 		n := 0
 		for _, site := range appendSitesT(gp, gspec.elem) {
 			n++
-			guardVerdict(m, r, "C27.R1", gname+": with a retry set, a partition is regrouped only if it is in the set", gp, site.Call,
+			guardVerdict(m, r, "C27.R1", gname+": with a retry set, a partition is regrouped only if it is in the set", gp, site.At,
 				Guard{cl(noFilter, member, innerNil)})
 		}
 		if n == 0 {
